@@ -178,7 +178,7 @@ func c23Pubs(ks []*fix.ZooKey) []keypair.PublicKey {
 	return out
 }
 
-const c23Rule = "key sets of size 1..16 over P-224/256/384/521, SM2, Ed25519 and secp256k1 zoo keys, every threshold m, two random orderings per case; invalid parameters (m=0, m>n, n>16, n<2, declared n != number of keys) against builder, address function and reference-built scripts; alternative number pushes; mutated valid scripts and arbitrary bytes; non-trivial = set with >=2 keys in a non-sorted order, an invalid-parameter case, or a mutated/arbitrary script; distinct = different keys/m/order or bytes"
+const c23Rule = "key sets of size 1..16 over P-224/256/384/521, SM2, Ed25519 and secp256k1 zoo keys, every threshold m, two random orderings per case; invalid parameters (m=0, m>n, n>16, n<2, declared n != number of keys) against builder, address function and reference-built scripts; alternative number pushes; mutated valid scripts and arbitrary bytes; held results: sequences of 2-8 (key list, m) jobs (fresh ones and relatives of an earlier one: the same list under another m, another ordering of the same set, one key dropped / added / replaced, one key alone) whose built scripts (ProgramFromPubKey, ProgramFromMultiPubKey, Encode..ProgramInto, Sig.GetRawSig, ProgramFromParams), parsed ProgramInfo / pushes and addresses are held to the end of the case next to private copies while rejected parameters and scripts are processed, optionally with joined goroutines, then compared, recomputed, parsed / hashed / re-built again and checked against overwritten caller buffers; non-trivial = set with >=2 keys in a non-sorted order, an invalid-parameter case, a mutated/arbitrary script, or a held sequence with >=2 different scripts; distinct = different keys/m/order or bytes" + c23EditRule
 
 func TestC23_BuildParse(t *testing.T) {
 	ev := harn.For("C23").Rule(c23Rule)
@@ -418,6 +418,10 @@ func c23Judge(script []byte) (msg string, accepted bool) {
 	// the same bytes as an invocation script: list of pushes or error; re-encoding the pushes is a
 	// fixpoint of the parser
 	sigs, perr := program.GetParamInfo(script)
+	// both verdicts, M, keys and pushes against the independent grammar model (c23_edits_test.go)
+	if m := c23AgainstModel(script, info, err, sigs, perr); m != "" {
+		return m, err == nil
+	}
 	if perr == nil {
 		empty := false
 		for _, s := range sigs {
